@@ -246,6 +246,9 @@ class CoherentFeedForwardLoop:
         # Update circuit breaker
         if result.success and not result.blocked:
             self._record_success()
+        elif result.action == "FAILURE":
+            # Executor failure: counts toward the breaker (every non-success result is flagged blocked)
+            self._record_failure()
         elif result.blocked:
             # Blocks are intentional, not failures
             pass
